@@ -13,6 +13,9 @@ fn ch(tok: &str) -> &str {
         "QUOTE" => "\"",
         "BACKSLASH" => "\\",
         "NEWLINE" => "\n",
+        "TAB" => "\t",
+        "NUL" => "\0",
+        "COMBINING" => "\u{301}",
         o => o,
     }
 }
